@@ -2,7 +2,6 @@ package dnsforward
 
 import (
 	"context"
-	"encoding/binary"
 	"net"
 	"net/netip"
 	"strings"
@@ -21,6 +20,9 @@ import (
 // question of the request.  Add persistent client.
 type dnsContext struct {
 	proxyCtx *proxy.DNSContext
+
+	// prx is the proxy instance that has received the request.
+	prx *proxy.Proxy
 
 	// setts are the filtering settings for the client.
 	setts *filtering.Settings
@@ -82,9 +84,10 @@ const (
 const ddrHostFQDN = "_dns.resolver.arpa."
 
 // handleDNSRequest filters the incoming DNS requests and writes them to the query log
-func (s *Server) handleDNSRequest(_ *proxy.Proxy, pctx *proxy.DNSContext) error {
+func (s *Server) handleDNSRequest(prx *proxy.Proxy, pctx *proxy.DNSContext) error {
 	dctx := &dnsContext{
 		proxyCtx:  pctx,
+		prx:       prx,
 		result:    &filtering.Result{},
 		startTime: time.Now(),
 	}
@@ -179,9 +182,7 @@ func (s *Server) processInitial(dctx *dnsContext) (rc resultCode) {
 
 	// Get the ClientID, if any, before getting client-specific filtering
 	// settings.
-	var key [8]byte
-	binary.BigEndian.PutUint64(key[:], pctx.RequestID)
-	dctx.clientID = string(s.clientIDCache.Get(key[:]))
+	dctx.clientID = string(s.clientIDCache.Get(clientIDCacheKey(dctx.prx, pctx)))
 
 	// Get the client-specific filtering settings.
 	dctx.protectionEnabled, _ = s.UpdatedProtectionStatus()
